@@ -253,6 +253,50 @@ func matrixCase(c *fw.Ctx, idx int) {
 			}
 		}
 	}
+	// trust follows later Trust/Distrust calls, also for callers that have already been
+	// served (or refused) before: flip both callers and sweep the trusted endpoints again
+	if kind == "crdt-list" || kind == "crdt-runtime" {
+		flip := func(cl *caller, to bool) bool {
+			var err error
+			if to {
+				err = A.Node.Consensus.Trust(ctx, cl.h.ID())
+			} else {
+				err = A.Node.Consensus.Distrust(ctx, cl.h.ID())
+			}
+			if err != nil {
+				c.Inconclusive("Trust/Distrust: " + err.Error())
+				return false
+			}
+			trusted[cl.name] = to
+			return true
+		}
+		if flip(B, !trusted["B"]) && flip(U, !trusted["U"]) {
+			for _, cl := range []*caller{B, U} {
+				for _, ep := range eps {
+					name := ep.svc + "." + ep.method
+					if localOnly[name] || openToAll[name] {
+						continue
+					}
+					arg := argFor(ep.in, cl.h.ID())
+					reply := reflect.New(ep.out.Elem()).Interface()
+					cctx, cancel := context.WithTimeout(ctx, 2*time.Second)
+					c.Journal("%s after flip %s -> %s", kind, cl.name, name)
+					err := cl.client.CallContext(cctx, A.ID, ep.svc, ep.method, arg, reply)
+					cancel()
+					authErr := err != nil && rpc.IsAuthorizationError(err)
+					tr := trusted[cl.name]
+					c.Eval(fmt.Sprintf("%s/after-flip/%s(trusted=%v)/%s/refused=%v", kind, cl.name, tr, name, authErr))
+					detail := map[string]interface{}{"configuration": kind, "caller": cl.name, "caller_trusted_now": tr, "endpoint": name, "error": fmt.Sprint(err)}
+					if !tr && !authErr {
+						c.Violation("C07/distrusted-caller-still-authorised/"+name, fmt.Sprintf("%s was served before, then Distrust was called, and it is still authorised on %s: %v", cl.name, name, err), detail)
+					}
+					if tr && authErr {
+						c.Violation("C07/trusted-caller-still-refused/"+name, fmt.Sprintf("%s was refused before, then Trust was called, and it is still refused on %s", cl.name, name), detail)
+					}
+				}
+			}
+		}
+	}
 	// self: local calls are always served (a few harmless ones)
 	for _, m := range []string{"ID", "Version", "Pins", "Peers"} {
 		var err error
